@@ -99,7 +99,6 @@ Qualifier Override : string = null, Scope(property, reference, method), Flavor(E
 Qualifier Values : string[], Scope(property, method, parameter), Flavor(EnableOverride, ToSubclass, Translatable);
 Qualifier ValueMap : string[], Scope(property, method, parameter), Flavor(EnableOverride, ToSubclass);
 Qualifier MaxLen : uint32 = null, Scope(property, method, parameter), Flavor(EnableOverride, ToSubclass);
-%(tq)s
 class TST_Base { [Key] string Id; uint32 Num; };
 class TST_Emb { [Key] string Id; string S; sint32 N; };
 class TST_Types {
@@ -113,10 +112,14 @@ DTYPES = ['boolean', 'string', 'char16', 'datetime', 'uint8', 'sint8', 'uint16',
 
 
 def prelude_text():
-    tq = ''.join('Qualifier TQT_%s : %s, Scope(any);\nQualifier TQTA_%s : %s[], Scope(any);\n'
-                 % (t, t, t, t) for t in DTYPES)
     tp = ''.join('  %s P_%s;\n  %s PA_%s[];\n' % (t, t, t, t) for t in DTYPES)
-    return PRELUDE % dict(tq=tq, tp=tp)
+    return PRELUDE % dict(tp=tp)
+
+
+def prelude_ext_text():
+    """typed qualifier declarations, only present for the initializer cases (case['ext'])"""
+    return ''.join('Qualifier TQT_%s : %s, Scope(any);\nQualifier TQTA_%s : %s[], Scope(any);\n'
+                   % (t, t, t, t) for t in DTYPES)
 
 
 # the unit every compiler must still compile correctly after a failure (self-contained: declares
@@ -263,11 +266,14 @@ class TST_PS { string A; };
     'inc/q.mof': 'Qualifier TQ_Inc : string, Scope(any);\n',
 })
 
-_tpl('depsearch', r'''class TST_Sub : TST_SpBase { [TQ_Sp("s")] string X; TST_SpRef REF R; };
+_tpl('depsearch', r'''class TST_Sub : TST_SpBase { [TQ_Sp("s")] string X; };
+[Association] class TST_SubA { [Key] TST_SpRef REF R; [Key] TST_Sub REF S; };
 instance of TST_SpCls { Id = "1"; };
 ''', ns='root/empty', search=True, files={
     'sp/qualifiers.mof': 'Qualifier Key : boolean = false, Scope(property, reference), '
-                         'Flavor(DisableOverride, ToSubclass);\nQualifier TQ_Sp : string, Scope(any);\n',
+                         'Flavor(DisableOverride, ToSubclass);\nQualifier TQ_Sp : string, Scope(any);\n'
+                         'Qualifier Association : boolean = false, Scope(association), '
+                         'Flavor(DisableOverride, ToSubclass);\n',
     'sp/a/TST_SpBase.mof': 'class TST_SpBase { [Key] string Id; };\n',
     'sp/a/tst_spref.mof': 'class TST_SpRef { [Key] string Id; };\n',
     'sp/TST_SpCls.mof': 'class TST_SpCls { [Key] string Id; };\n',
@@ -277,6 +283,7 @@ _tpl('dups', r'''class TST_Dup { [Key] string Id; };
 class TST_Dup { [Key] string Id; uint8 N; };
 instance of TST_Dup { Id = "1"; };
 instance of TST_Dup { Id = "1"; N = 2; };
+instance of TST_Dup { N = 3; };
 Qualifier TQ_Dup : string, Scope(any);
 Qualifier TQ_Dup : string = "x", Scope(any);
 ''')
@@ -312,6 +319,7 @@ TOKEN_ALPHABET = [
     '\\', '\x00', '\u00e9', '@',
 ]
 # reduced alphabet for pairs (thorough) and for the mock seam
+TOKEN_ALPHABET_PAIRS = ['1', '"s"', '}', ';', ',', '=', 'foo', '"a']
 TOKEN_ALPHABET_SMALL = ['1', '"s"', 'null', '(', '}', ';', ',', '$', '=', 'class', 'foo', '$zz',
                         '08', '"\\x"', '"a', '\x00']
 CHAR_ALPHABET = ['"', "'", '\\', '/', '*', '#', '{', '(', '$', '\x00', '\r', '\u00e9']
@@ -358,9 +366,9 @@ class StubRepo(pywbem.WBEMConnection):
     """In-memory repository with WBEMConnection operation signatures; never touches the network.
     fault = (k, kind, code): the k-th operation (0-based) raises."""
 
-    def __init__(self, pristine, faults=()):
+    def __init__(self, pristine, faults=(), ext=False):
         super().__init__('http://stub.invalid', default_namespace=DEFAULT_NS)
-        self.quals = {DEFAULT_NS: NocaseDict(pristine['quals'])}
+        self.quals = {DEFAULT_NS: NocaseDict(pristine['quals'] + (pristine['ext'] if ext else []))}
         self.classes = {DEFAULT_NS: NocaseDict(pristine['classes'])}
         self.insts = {}
         self.ncalls = 0
@@ -614,10 +622,14 @@ def worker():
     w.pristine = dict(quals=[(q.name, q) for q in h.qualifiers[DEFAULT_NS].values()],
                       classes=[(c.classname, c) for c in h.classes[DEFAULT_NS].values()])
     w.prelude_objs = [q for _, q in w.pristine['quals']] + [c for _, c in w.pristine['classes']]
+    h = MOFWBEMConnection()
+    MOFCompiler(h, log_func=None).compile_string(prelude_ext_text(), DEFAULT_NS)
+    w.pristine['ext'] = [(q.name, q) for q in h.qualifiers[DEFAULT_NS].values()]
+    w.mock0 = {}
     _W = w
     w.expected = {}
     for seam in ('mofwbem', 'direct'):
-        stub, handle, comp = new_compiler(seam, None, False, w)
+        stub, handle, comp = new_compiler(seam, None, False, False, w)
         comp.compile_string(REFERENCE_UNIT, None)
         w.expected[seam] = reference_dump(seam, stub, handle)
         if not w.expected[seam]['instances'] or None in w.expected[seam]['classes']:
@@ -625,9 +637,9 @@ def worker():
     return w
 
 
-def new_compiler(seam, faults, search, w=None):
+def new_compiler(seam, faults, search, ext=False, w=None):
     w = w or worker()
-    stub = StubRepo(w.pristine, faults or ())
+    stub = StubRepo(w.pristine, faults or (), ext)
     handle = MOFWBEMConnection(stub) if seam == 'mofwbem' else stub
     comp = MOFCompiler(handle, search_paths=[os.path.join(w.root, 'sp')] if search else None,
                        log_func=None)
@@ -725,6 +737,13 @@ def pywbem_frames(tb):
     return out
 
 
+# constructors / validators of CIM values raise ValueError / TypeError by contract; the root cause of
+# such an exception escaping the compiler is the innermost caller outside these modules
+VALUE_LAYER = ('_cim_obj.', '_cim_types.', '_nocasedict.', '_utils.', '_exceptions.')
+PRAGMA_FRAMES = ('_mof_compiler.p_compilerDirective', '_mof_compiler.p_pragmaParameter',
+                 '_mof_compiler.p_pragmaName')
+
+
 def where_of(exc):
     frames = pywbem_frames(exc.__traceback__)
     if not frames:
@@ -733,7 +752,21 @@ def where_of(exc):
         cnt = collections.Counter(frames)
         rec = sorted(f for f, n in cnt.items() if n >= 3)
         return 'recursion:' + (rec[0] if rec else frames[-1])
+    for f in reversed(frames):
+        if not f.startswith(VALUE_LAYER):
+            return f
     return frames[-1]
+
+
+def check_of(exc, stub):
+    """signature field 'check', derived from the failure (not from the generator): 'fault' if an
+    injected repository error preceded it, 'pragma' if it arose inside a compiler directive,
+    else 'deviation'"""
+    if stub is not None and stub.injected is not None:
+        return 'fault'
+    if exc is not None and any(f in PRAGMA_FRAMES for f in pywbem_frames(exc.__traceback__)):
+        return 'pragma'
+    return 'deviation'
 
 
 def scrub(text):
@@ -779,12 +812,26 @@ def position_problem(exc, case, embedded):
         line = lines[lineno - 1] if lineno <= len(lines) else ''
         if 0 <= column <= len(line) + 1:
             return None
+        # which way is the line number off? (classification only: the line text of the context)
         verdict = 'position:column-out-of-range'
+        if isinstance(context, list) and len(context) >= 2:
+            ctx = context[-2]
+            hits = [i + 1 for i, ln in enumerate(lines)
+                    if ln.strip('\r\n') == ctx or (ctx and ln.startswith(ctx))]
+            if hits and all(h > lineno for h in hits):
+                verdict += ':lineno-behind-token'
+            elif hits and all(h < lineno for h in hits):
+                verdict += ':lineno-ahead-of-token'
     return verdict
 
 
 def classify(exc, case, stub, embedded):
-    """-> (outcome, what|None, where|None, expected, observed)"""
+    """-> (outcome, what|None, where|None, expected, observed, check)"""
+    out, what, where, exp, obs = _classify(exc, case, stub, embedded)
+    return out, what, where, exp, obs, (check_of(exc, stub) if what is not None else None)
+
+
+def _classify(exc, case, stub, embedded):
     seam = case['seam']
     if exc is None:
         return 'ok', None, None, None, None
@@ -816,13 +863,19 @@ def classify(exc, case, stub, embedded):
         return 'fault-propagated', None, None, None, None
     if seam == 'mock' and isinstance(exc, CIMError):
         return 'mock:CIMError', None, None, None, None
-    return ('violation', 'escaped:' + type(exc).__name__, where_of(exc), expected,
+    what = 'escaped:' + type(exc).__name__
+    frames = pywbem_frames(exc.__traceback__)
+    if type(exc) in (ValueError, TypeError) and frames and frames[-1].startswith(VALUE_LAYER):
+        # a CIM value / object constructor rejected the value: one failure class for both types
+        what = 'escaped:value-conversion'
+    return ('violation', what, where_of(exc), expected,
             scrub('%s: %s' % (type(exc).__name__, str(exc)[:300])))
 
 
 def case_key(case):
     files = case.get('files') or {}
     return (case['seam'], case['entry'], case['text'], case.get('ns'), bool(case.get('search')),
+            bool(case.get('ext')),
             tuple(case['fault']) if case.get('fault') else None,
             tuple(case['fault2']) if case.get('fault2') else None,
             tuple(sorted((k, v if isinstance(v, str) else v.decode('latin-1'))
@@ -870,17 +923,20 @@ def _guarded(fn):
 def _execute(w, case, seam, text, ns, embedded):
     stub = handle = comp = None
     if seam == 'mock':
-        if getattr(w, 'mock0', None) is None:
-            w.mock0 = pywbem_mock.FakedWBEMConnection(default_namespace=DEFAULT_NS)
-            w.mock0.add_namespace('root/other')
-            w.mock0.add_namespace('root/empty')
-            w.mock0.add_cimobjects(w.prelude_objs, DEFAULT_NS)
-        conn = copy.deepcopy(w.mock0)
+        ext = bool(case.get('ext'))
+        if ext not in w.mock0:
+            m = pywbem_mock.FakedWBEMConnection(default_namespace=DEFAULT_NS)
+            m.add_namespace('root/other')
+            m.add_namespace('root/empty')
+            m.add_cimobjects(w.prelude_objs + ([q for _, q in w.pristine['ext']] if ext else []),
+                             DEFAULT_NS)
+            w.mock0[ext] = m
+        conn = copy.deepcopy(w.mock0[ext])
         sp = [os.path.join(w.root, 'sp')] if case.get('search') else None
         exc = _guarded(lambda: conn.compile_mof_string(text, ns, search_paths=sp))
     else:
         stub, handle, comp = new_compiler(seam, (case.get('fault'), case.get('fault2')),
-                                          case.get('search'))
+                                          case.get('search'), bool(case.get('ext')))
         orig = comp.compile_embedded_value
 
         def spy(mof, ns_, filename=None):
@@ -901,7 +957,7 @@ def _execute(w, case, seam, text, ns, embedded):
             what = 'timeout' if isinstance(hexc, _Timeout) else 'reference-raised:' + type(hexc).__name__
             results.append(('violation', what, where_of(hexc) if not isinstance(hexc, _Timeout) else 'watchdog',
                             'reference unit compiles after the failed compile',
-                            scrub('%s: %s' % (type(hexc).__name__, str(hexc)[:300]))))
+                            scrub('%s: %s' % (type(hexc).__name__, str(hexc)[:300])), 'hygiene'))
         else:
             got = reference_dump(seam, stub, handle)
             if got != w.expected[seam]:
@@ -909,16 +965,9 @@ def _execute(w, case, seam, text, ns, embedded):
                 d = objdump.diff(w.expected[seam][kind[0]], got[kind[0]])
                 results.append(('violation', 'reference-differs:' + '+'.join(kind),
                                 'after:' + (results[0][0] if results[0][1] is None else results[0][1]),
-                                'objects equal to those of a fresh compiler', scrub(str(d)[:400])))
+                                'objects equal to those of a fresh compiler', scrub(str(d)[:400]),
+                                'hygiene'))
     return results, ncalls
-
-
-def sig_check(case, idx):
-    if idx == 1:
-        return 'hygiene'
-    if case.get('fault'):
-        return 'fault'
-    return 'pragma' if case['check'] == 'pragma' else 'deviation'
 
 
 def check_case(case, acc, base_text=None, minimize_seen=None):
@@ -931,32 +980,31 @@ def check_case(case, acc, base_text=None, minimize_seen=None):
              calls=1 + ncalls,
              sample=dict(case, files=sorted(case.get('files') or {})) if outcome != 'ok' and
              len(case['text']) < 400 else None)
-    for idx, (out, what, where, exp, obs) in enumerate(results):
+    for idx, (out, what, where, exp, obs, chk) in enumerate(results):
         if what is None:
             continue
-        sig = dict(check=sig_check(case, idx), what=what, where=where)
-        acc.violation(sig, dict(case, sigidx=idx), exp, obs)
+        acc.violation(dict(check=chk, what=what, where=where), dict(case, sigidx=idx), exp, obs)
 
 
-def _still(case, idx, what, where):
+def _still(case, idx, sig):
     r, _ = execute(case)
-    return len(r) > idx and r[idx][1] == what and r[idx][2] == where
+    return len(r) > idx and (r[idx][5], r[idx][1], r[idx][2]) == sig
 
 
-def minimize_case(case, idx, what, where, budget=300):
+def minimize_case(case, idx, sig, budget=300):
     """drop unneeded auxiliary files, then ddmin over the characters of the text"""
     tests = [0]
     files = dict(case.get('files') or {})
     for rel in sorted(files):
         trial = {k: v for k, v in files.items() if k != rel}
         tests[0] += 1
-        if _still(dict(case, files=trial), idx, what, where):
+        if _still(dict(case, files=trial), idx, sig):
             files = trial
     case = dict(case, files=files)
 
     def fails(text):
         tests[0] += 1
-        return _still(dict(case, text=text), idx, what, where)
+        return _still(dict(case, text=text), idx, sig)
 
     text = case['text']
     n = 2
@@ -984,19 +1032,29 @@ def finish(total, tier):
     """runs once in the parent on the merged result: shrink the (already smallest) witness of every
     signature; deterministic because the merged witness is"""
     from mc.core import unjson, jsonable
+    import time
     warnings.simplefilter('ignore')
+    t0 = time.perf_counter()
     for k in sorted(total.violations):
         v = total.violations[k]
         case = unjson(v['case'])
         idx = case.pop('sigidx', 0)
-        what, where = v['sig']['what'], v['sig']['where']
-        if what == 'timeout' or not _still(case, idx, what, where):
+        sig = (v['sig']['check'], v['sig']['what'], v['sig']['where'])
+        if sig[1] == 'timeout' or not _still(case, idx, sig):
             continue
-        small = minimize_case(case, idx, what, where)
+        if case['seam'] != 'mofwbem' and not case.get('fault'):
+            # prefer a witness on the plain MOFCompiler / MOFWBEMConnection seam
+            trial = dict(case, seam='mofwbem')
+            if _still(trial, idx, sig):
+                case = trial
+        small = minimize_case(case, idx, sig)
         r, _ = execute(small)
         small = jsonable(dict(small, sigidx=idx))
         v.update(case=small, size=len(json.dumps(small, ensure_ascii=True)),
                  expected=jsonable(r[idx][3]), observed=jsonable(r[idx][4]))
+    if os.environ.get('MC_DEBUG'):
+        sys.stderr.write('c09.finish: %d signatures minimised in %.1fs\n'
+                         % (len(total.violations), time.perf_counter() - t0))
 
 
 # ------------------------------------------------------------------------------------------
@@ -1097,7 +1155,7 @@ def build_token_case(name, edits, seam):
 
 
 def gen_token_pairs(distance):
-    ops = token_ops(TOKEN_ALPHABET_SMALL)
+    ops = token_ops(TOKEN_ALPHABET_PAIRS)
     for name, t in TEMPLATES.items():
         n = len(token_spans(name))
         for i in range(n):
@@ -1164,7 +1222,7 @@ def initializer_texts():
 def gen_initializers():
     for text in initializer_texts():
         yield dict(check='deviation', seam='mofwbem', entry='string', text=text, files={}, ns=None,
-                   search=False, fault=None, origin='initializer')
+                   search=False, fault=None, ext=True, origin='initializer')
 
 
 def gen_pragmas():
